@@ -51,6 +51,16 @@ class StubES:
         return np.zeros(1), np.array(0.0)
 
 
+class StubGP:
+    """Only consulted when hedge_gamma == 0 (the non-chosen strategies are then evaluated at the search point)."""
+
+    def predict(self, x):
+        x = np.asarray(x)
+        if x.ndim != 2 or x.shape != (1, 2):
+            raise AssertionError("predict called with shape %s, expected (1, 2)" % (x.shape,))
+        return np.array([[9.5]]), np.array([[0.25]])
+
+
 def hedge_bfs(args):
     beta, gamma, decay, depth = args
     sh = sys.modules.get("pybads.search.search_hedge")
@@ -114,7 +124,7 @@ def hedge_bfs(args):
                                 got = int(np.ravel(hh.chosen_hedge)[0])
                                 if exp_idx is not None and got != exp_idx:
                                     bad.setdefault("hedge-choice-inconsistent", (dv, p.tolist(), got))
-                                hh.update_hedge(np.zeros(1), 10.0, 10.0 + df, fs, None, mesh)
+                                hh.update_hedge(np.zeros(2), 10.0, 10.0 + df, fs, StubGP(), mesh)
                                 if not np.all(np.isfinite(hh.g) | True):
                                     pass
                             except Exception as e:  # noqa
@@ -171,6 +181,7 @@ def run(ctx):
     # (b)
     depth = 4 if q else 6
     hcfgs = [(beta, 0.125, decay, depth) for beta in (1.0, 0.1, 10.0) for decay in (0.1 ** 0.5, 0.1 ** 0.25)]
+    hcfgs += [(1.0, 0.0, 0.1 ** 0.5, depth), (0.1, 0.3, 0.1 ** 0.5, depth)]
     hs = ht = 0
     for args, ns, nt, bad in pmap(hedge_bfs, hcfgs):
         hs += ns
